@@ -654,8 +654,8 @@ func c05derived(c *Ctx) {
 // c05prune: dropping the per-node entry of a two-level index.
 func c05prune(c *Ctx) {
 	r := c.R
-	r.Rule("PATH(prune): in package reservation every delete(cache.<index>, node) on a two-level index (reservationsOnNode, matchableOnNode, allocatedOnNode, preAllocatablePodsOnNode) is dominated by len(<index>[node]) == 0 (or <= 0) on the same inner map; a test such as len <= 1 taken before the uid was removed drops live entries when the uid was not in the map")
-	idx := map[string]bool{"reservationsOnNode": true, "matchableOnNode": true, "allocatedOnNode": true, "preAllocatablePodsOnNode": true}
+	r.Rule("PATH(prune): in package reservation every delete(cache.<index>, node) on a two-level index (reservationsOnNode, matchableOnNode, allocatedOnNode) is dominated by len(<index>[node]) == 0 (or <= 0) on the same inner map; a test such as len <= 1 taken before the uid was removed drops live entries when the uid was not in the map")
+	idx := map[string]bool{"reservationsOnNode": true, "matchableOnNode": true, "allocatedOnNode": true}
 	n := 0
 	for _, fn := range c.PkgFuncs(resvPkg) {
 		k := 0
